@@ -233,3 +233,7 @@ var CSSValueShape = func() map[string]string {
 	}
 	return out
 }()
+
+// HTML §13.2.3.5 (preprocessing the input stream): U+000D is normalised to U+000A when it stands literally in the document; the
+// character references &#13; / &#xD; give U+000D. A decoder that writes the byte changes the text.
+var HTMLLiteralReadDifferently = []byte{'\r'}
